@@ -279,6 +279,14 @@ def check_one(chk, c, o, r_w, r_ess, r_lse, r_rej, r_sl):
         expected = np.nonzero(margin > 0)[0]
         try:
             got = impl_reject(s, u)
+            # a query must leave the set it is asked of unchanged: log_w stays log L + log pi - log q of each sample and the
+            # log-evidence the log of the mean weight AFTER rejection sampling / scaled_weights / selection were used
+            after_lw = ns.to_np(s.log_w)
+            if not np.array_equal(after_lw, o["log_w"], equal_nan=True) or float(s.log_evidence) != o["logZ"]:
+                j = int(np.argmax(after_lw != o["log_w"])) if after_lw.shape == o["log_w"].shape else -1
+                chk.fail("log-weight = log L + log pi - log q of the same sample", case,
+                         f"after rejection_sample() the stored log_w[{j}] is {after_lw[j] if j >= 0 else None!r}, it was {o['log_w'][j] if j >= 0 else None!r}",
+                         {"clause": "logw", "after": "rejection_sample"})
             if list(np.round(got).astype(int)) != list(expected):
                 chk.fail("rejection keeps i iff u_i < w_i / max w", case,
                          f"expected rows {expected.tolist()[:10]} got {got.tolist()[:10]}", {"clause": "rejection"})
